@@ -1,4 +1,5 @@
 """C15 Wrapper selection is honoured and file lists match what was written (DESIGN.md 6/C15)."""
+import json
 import ast
 import copy
 import os
@@ -227,6 +228,12 @@ def run(ctx):
         "that the extra constructor added for wrap_python struct classes leaves C/Fortran bytes unchanged (residual "
         "assumption of the design); per-declaration wrap flags inside the emitters; WrapFlags/PromoteWrap folds",
     ]
+    # relations of this property on the upstream regression inputs (bounded, never proof)
+    rc = ctx.monitor("m_corpus_rel", "psearch", 400, ctx.seed, 16, json.dumps({"rel": ['pylua']}))
+    ctx.bounded.append({"monitor": "m_corpus_rel", "inputs_tried": rc["tried"], "violation": rc["violation"],
+                        "kind": 'every upstream regression input with wrap_python / wrap_lua flipped: C and Fortran files byte-identical'})
+    if rc["violation"]:
+        ctx.violation("bounded/m_corpus_rel", {"inputs": rc["inputs"], "observed": rc["violation"]}, True)
     if ctx.tier != "thorough":
         r = ctx.monitor("m_wrapsel", "search", 80, ctx.seed)
         ctx.bounded.append({"monitor": "m_wrapsel", "inputs_tried": r["tried"], "violation": r["violation"],
